@@ -57,8 +57,18 @@ def run(tier, seed, replay):
             cprogs = ['. as [$s, $re, $flags] | $s | try test($re; $flags) catch "err"', '. as [$s, $re, $flags] | $s | try [match($re; $flags).string] catch "err"', '. as [$s, $re, $flags] | $s | try gsub($re; "-") catch "err"',
                       '. as [$s, $re, $flags] | $s | try [scan($re)] catch "err"', '. as [$s, $re, $flags] | $s | try sub($re; "-"; $flags) catch "err"', '. as [$s, $re, $flags] | $s | try [splits($re; $flags)] catch "err"']
             special += [(p, jqgen.V(a), jqgen.V(b)) for p in cprogs for a, b in coll]
+            # outputs that enumerate Go maps (nothing may depend on map iteration order), every array native applied to arrays that belong to the input
+            enum = ["builtins", "[builtins[] | select(test(\"^(IN|add|range|limit|first|ltrimstr|env|input)/\"))]", "builtins[:60]", "[builtins[] | split(\"/\")[0]] | .[:80]", "$ENV | keys", "env | keys", "[paths]", "keys", "to_entries",
+                    "[.[]?]", "tojson", "[.. | objects | keys[]]", "with_entries(.)", "[tostream] | length", "input_line_number", "[limit(5; .[]?)]", "add?", "[splits(\"a\")]?", "@json", "[getpath(paths)] | length", "map_values(.)?"]
+            kinds = jqgen.V({"nums": [1, 2.5, True, "x", None], "ints": [3, 1, 2], "strs": ["b", "a", "c"], "arrs": [[1], [2, 3], []], "objs": [{"a": 1}, {"a": 2, "b": 0}], "mix": [1, "1", [1], {"a": 1}, None, 2 ** 70], "one": [5], "none": []})
+            natives = ["join(\",\")", "add", "sort", "sort_by(.)", "group_by(.)", "unique", "unique_by(.)", "min", "max", "min_by(.)", "max_by(.)", "reverse", "flatten", "transpose", "implode", "tojson", "tostring", "@csv", "@tsv", "@sh", "@json",
+                       "@html", "@text", "length", "keys", "to_entries", "map(.)", "first", "last", "index(1)", "indices(1)", "inside(.)", "contains(.)", ". - [1]", ". + [1]", ".[1:]", "del(.[0])", "with_entries(.)", "[paths]", "any", "all", "flatten(1)",
+                       "walk(.)", "[tostream]", "map(tostring)", "map(tojson)", "map(ascii_downcase?)", "map(abs?)", "map(-(.)?)", "map(length?)", "map(ltrimstr(\"a\")?)", "bsearch(1)", "combinations?", "[limit(2; .[])]", "has(0)", "map(type)",
+                       "(map(type) | join(\" \")), join(\"-\")", "add, join(\",\")", "[.[] | numbers] | add", "map(. as $x | [$x])", "to_entries | from_entries?", "[.[] | tojson] | join(\",\")", "map(@base64?)", "map(@uri?)", "map(floor?)", "map(sqrt?)"]
+            special += [(e, r.choice(uni), r.choice(uni)) for e in enum]
+            special += [(".%s | try (%s) catch \"err\"" % (k, n), kinds, r.choice(uni)) for n in natives for k in r.sample(["nums", "ints", "strs", "arrs", "objs", "mix", "one", "none"], 2 if quick else 8)]
             if quick:
-                special = r.sample(special, min(len(special), 320))
+                special = r.sample(special, min(len(special), 420))
             for p, i, o in special:
                 cases.append({"id": len(cases), "src": p, "input": i, "other": o, "mode": r.choice(MODES), "vars": [r.choice(bigin + addin), r.choice(bigin + addin)] if "$v" in p else []})
             cor = evalfam.corpus_cases(work, vh)
